@@ -1307,8 +1307,22 @@ func (u *Unit) checkPost(st *State, pos token.Pos) {
 			env.outOfScope = false
 			g := env.evalBool(en.Expr)
 			if env.outOfScope {
-				// the clause names a local that is not declared yet on this path: it says nothing about this return
+				// the clause names a local that is not declared yet on this path. For `A ==> B` where only B needs that
+				// local the clause still says something about this return: it must not satisfy A (otherwise an early
+				// return placed before the local's declaration would escape the clause). Any other shape says nothing here.
 				u.specErrors = u.specErrors[:nerr]
+				if ce, ok := ast.Unparen(en.Expr).(*ast.CallExpr); ok && len(ce.Args) == 2 {
+					if id, ok := ce.Fun.(*ast.Ident); ok && id.Name == "__imp" {
+						env.outOfScope = false
+						nerr2 := len(u.specErrors)
+						a := env.evalBool(ce.Args[0])
+						if !env.outOfScope && len(u.specErrors) == nerr2 {
+							u.emit(st, "post", fmt.Sprintf("post#%d", i), "ensures "+en.Text+"  [a local of the consequent does not exist at this return: the antecedent must be false here]", pos, not(a))
+							continue
+						}
+						u.specErrors = u.specErrors[:nerr2]
+					}
+				}
 				continue
 			}
 			u.emit(st, "post", fmt.Sprintf("post#%d", i), "ensures "+en.Text, pos, g)
